@@ -186,7 +186,8 @@ def expandDir (includeHidden : Bool) (t : Node) : List Entry :=
 
 /-- `process_path_tar(&path_to_fpath(entry), ..)` opens the *lossy* (`to_string_lossy`) path with
 `File::open(path).unwrap()`: a tar-named file reached in a walk through a component that is
-not UTF-8 aborts the program (the lossy path does not exist). -/
+not UTF-8 aborts the program (the lossy path does not exist) — when the open is an `unwrap()`
+(`S4V.Gen.WalkTar.tarOpenUnwraps`; repaired as F20: a failed open is now answered with `FileErr`). -/
 def tarOpenPanics (e : Entry) : Bool :=
   match e.out with
   | .tar _ => !isUtf8 (joinPath e.path)
